@@ -99,7 +99,12 @@ inline int sys_munmap(void* a, size_t l) {
 #endif
     return (int)syscall(SYS_munmap, a, l);
 }
-inline void* sys_mremap(void* a, size_t ol, size_t nl, int fl, void* na) { return (void*)syscall(SYS_mremap, a, ol, nl, fl, na); }
+inline void* sys_mremap(void* a, size_t ol, size_t nl, int fl, void* na) {
+#if VRT_TSAN
+    if (!(fl & MREMAP_FIXED)) return vrt::tsan_mremap(a, ol, nl, fl);   // see vrt.h: TSan does not intercept mremap
+#endif
+    return (void*)syscall(SYS_mremap, a, ol, nl, fl, na);
+}
 // anonymous private mapping for the harness itself (raw memory of pools, buffers): never counted, never refused
 inline void* os_map(size_t bytes) { void* p = sys_mmap(nullptr, bytes, PROT_READ | PROT_WRITE, MAP_PRIVATE | MAP_ANONYMOUS, -1, 0); return p == MAP_FAILED ? nullptr : p; }
 inline void os_unmap(void* p, size_t bytes) { sys_munmap(p, bytes); }
